@@ -695,6 +695,14 @@ Proof.
   destruct (run_evs v s1 d r) as [s2 o2]. exact IH.
 Qed.
 
+Lemma nm_ok_run_seq v l : forall s, nm_ok s -> nm_ok (fst (run_seq v s l)).
+Proof.
+  induction l as [|[p d] r IH]; intros s Hnm; [exact Hnm|]. cbn [run_seq].
+  pose proof (nm_ok_inbound v s p d Hnm) as H1.
+  destruct (inbound_v v s p d) as [s1 o1]. cbn [fst] in H1. specialize (IH s1 H1).
+  destruct (run_seq v s1 r) as [s2 o2]. exact IH.
+Qed.
+
 Lemma nm_ok_step v s o : nm_ok s -> nm_ok (fst (step_v v s o)).
 Proof.
   intros Hnm. destruct o; cbn [step_v].
@@ -714,6 +722,7 @@ Proof.
   - destruct (find_lfeat s e (Some f)) as [lf|]; [|exact Hnm].
     cbn [fst]. eapply nm_ok_sig; [|exact Hnm]. symmetry. apply sig_upd_lfeat. intros x. reflexivity.
   - exact Hnm.
+  - pose proof (nm_ok_run_seq v l s Hnm) as H. destruct (run_seq v s l) as [s1 out]. exact H.
   - pose proof (nm_ok_run_evs v d (par_events ps late pf) s Hnm) as H.
     destruct (run_evs v s d (par_events ps late pf)) as [s1 out]. exact H.
 Qed.
@@ -725,6 +734,12 @@ Proof. induction l as [|x l IH]; [reflexivity | exact IH]. Qed.
 Lemma no_response_par_obs out : existsb is_response (par_obs out) = false.
 Proof.
   induction out as [|o out IH]; [reflexivity|]. unfold par_obs. cbn [flat_map]. rewrite existsb_app. fold (par_obs out). rewrite IH.
+  destruct o; reflexivity.
+Qed.
+
+Lemma no_response_seq_obs out : existsb is_response (seq_obs out) = false.
+Proof.
+  induction out as [|o out IH]; [reflexivity|]. unfold seq_obs. cbn [flat_map]. rewrite existsb_app. fold (seq_obs out). rewrite IH.
   destruct o; reflexivity.
 Qed.
 
@@ -747,6 +762,7 @@ Proof.
   - destruct (find_lfeat s e (Some f)); [destruct (memN _ _)|]; reflexivity.
   - destruct (find_lfeat s e (Some f)); reflexivity.
   - cbn [snd]. rewrite existsb_app, no_response_retn. destruct (N.eqb t T_GENERIC); reflexivity.
+  - destruct (run_seq repaired s l) as [s1 out]. cbn [snd]. rewrite no_response_seq_obs. reflexivity.
   - destruct (run_evs repaired s d (par_events ps late pf)) as [s1 out]. cbn [snd]. rewrite no_response_par_obs. reflexivity.
 Qed.
 
